@@ -7,7 +7,7 @@ def storeFileOrder : List String := ["ready-dest", "link-to-dest"]
 def failedTarballRemoved : Bool := true
 def retrieveChecksExistsFirst : Bool := true
 def emptyOutsIsHit : Bool := true
-def enoentIsMiss : Bool := false
+def enoentIsMiss : Bool := true
 def damagedIsMiss : Bool := true
 def pathParts : List String := ["join-b64key", "param2", "param3", "field-Suffix"]
 end PlzVerif.Generated.C12
